@@ -18,9 +18,12 @@ def registry(db, probe=PROBE):
     qts = list(db.GetQuantityTypes())
     out.append(("quantity_types", tuple(qts)))
     for qt in qts:
-        infos = db.GetInfos(qt)
-        rows = tuple((i.unit, i.name, i.quantity_type, i.default_category, tuple(_f(i.tobase, x) for x in probe), tuple(_f(i.frombase, x) for x in probe)) for i in infos)
-        out.append(("qt", qt, db.GetBaseUnit(qt), tuple(db.GetUnits(qt)), tuple(db.GetUnitNames(qt)), rows))
+        try:
+            infos = db.GetInfos(qt)
+            rows = tuple((i.unit, i.name, i.quantity_type, i.default_category, tuple(_f(i.tobase, x) for x in probe), tuple(_f(i.frombase, x) for x in probe)) for i in infos)
+            out.append(("qt", qt, db.GetBaseUnit(qt), tuple(db.GetUnits(qt)), tuple(db.GetUnitNames(qt)), rows))
+        except Exception as e:  # a malformed registry must show up as a difference, not stop the harness
+            out.append(("qt", qt, "getters raise %s" % type(e).__name__, tuple(i.unit for i in db.quantity_types.get(qt, ()))))
     for c in list(db.IterCategories()):
         i = db.GetCategoryInfo(c)
         out.append(
